@@ -19,9 +19,9 @@ PROP = {'gen': ['sixel'],
                'rasterize blend_over and the 64-bit content hash are oracles. No axioms.',
  'technique': 'Coq proof (encoder/interpreter round trip for every hash iteration order) + regenerated tables + model/implementation correspondence',
  'design_ref': 'DESIGN.md 6.12',
- 'n_quick': 200,
+ 'n_quick': 140,
  'n_thorough': 3500,
- 'shard': 20,
+ 'shard': 16,
  'level': 'proof',
  'trusted_base': [KERNEL,
                   'translate/sixel_tables.py: the two channel scalings (256 entries each, exact binary32 evaluation), palette size, dither '
